@@ -87,7 +87,13 @@ def gen_random(rng, maxn):
             'falsy': rng.choice([None, None, 'bool', 'len']),
             # a class defined AFTER the first queries: [bases], populated
             'late': [rng.sample(range(n), rng.randint(1, min(2, n)))
-                     for _ in range(rng.randint(0, 2))]}
+                     for _ in range(rng.randint(0, 2))],
+            # after the first queries: components attached / detached, or
+            # given again through create_entity with the id of the entity
+            # that has them ('over'), then every query again
+            'churn': [[rng.randrange(len(ents)), rng.randrange(n),
+                       rng.choice(['toggle', 'over', 'over'])]
+                      for _ in range(rng.choice([0, 0, 1, 2, 3]))]}
 
 
 def gen_scale(rng):
@@ -490,9 +496,21 @@ def run_case(case):
         return _fin(res)
     # ---- churn: attach / replace / detach components after the queries
     # above, then every get(T) again (query results must not go stale)
-    for ei, k in case.get('churn', []):
+    for ei, k, *how in case.get('churn', []):
+        if ei >= len(comps) or k >= n:
+            continue            # (a shrunk case)
         e, row = comps[ei]
-        if k in row:
+        if how == ['over']:
+            c = comp_classes[k]()
+            c.uid = (ei, k, 'over', res.stats['churn_ops'])
+            got_id = w.create_entity(c, entity_id=e)
+            if got_id != e:
+                fail('create-over-id', 'create_entity(c, entity_id=e) '
+                     'returned another identifier', e, got_id, k)
+                return _fin(res)
+            row[k] = c
+            res.stats['components_given_again_by_create_entity'] += 1
+        elif k in row:
             w.remove_component(e, comp_classes[k])
             del row[k]
         else:
